@@ -12,7 +12,7 @@
     [inc_end m g n] / [hh_end g n] = n lies on an included / on an H-H bond, [charge_changed a] = the two charges in typesGH differ.
     Theorems 13-17: the RadiusExpand helpers. *)
 From Coq Require Import List NArith ZArith Bool.
-From SK Require Import lib.LGraph lib.C01_GraphLemmas model.C01_Model model.C02_Model proof.C02_Proof proof.C02_Opts proof.C02_OptsEquiv proof.C02_Ctx.
+From SK Require Import lib.LGraph lib.C01_GraphLemmas model.C01_Model model.C02_Model proof.C02_Proof proof.C02_Opts proof.C02_OptsEquiv proof.C02_Ctx proof.C02_Lre.
 Import ListNotations.
 Local Open Scope Z_scope.
 
@@ -217,3 +217,18 @@ Theorem C02_rcx_idem_needs_element : exists (K : keysel) (g : xits),
   gnodes (get_rc_x K false false (get_rc_x K false false g)) = [].
 Proof. exact rcx_idem_needs_element. Qed.
 Print Assumptions C02_rcx_idem_needs_element.
+
+(** ... and needs typesGH when disconnected=True: an isolated charge-changing atom loses typesGH in the centre *)
+Theorem C02_rcx_idem_needs_typesGH : exists (K : keysel) (g : xits),
+  wf g /\ k_el K = true /\ length (gnodes (get_rc_x K true false g)) = 1%nat /\
+  gnodes (get_rc_x K true false (get_rc_x K true false g)) = [].
+Proof. exact rcx_idem_needs_typesGH. Qed.
+Print Assumptions C02_rcx_idem_needs_typesGH.
+
+(** 19. longest_radius_extension (model with fuel, [lre]) returns the empty path or a centre atom followed by a
+        duplicate-free chain of bonds whose standard_order is 0 ([zchain g n ext]: std0 on every consecutive pair) *)
+Theorem C02_lre_path : forall (g : its) (rcn : list N),
+  lre g rcn = [] \/
+  exists n ext, In n rcn /\ lre g rcn = n :: ext /\ zchain g n ext /\ NoDup (n :: ext).
+Proof. exact lre_path. Qed.
+Print Assumptions C02_lre_path.
